@@ -80,6 +80,76 @@ fn eval_batch(table: &Table, mapfile: &str, cases: &[&ConstCase]) -> Result<Vec<
     Ok(out)
 }
 
+
+// ---------------------------------------------------------------------------------------------
+// family (c2): chains of const definitions in any order.  Each const has a type and a body built from literals and
+// references to the consts before it in dependency order, read plainly, through a casting sigil (`$F`, `%I`) or
+// through `int()`/`float()`; the definitions are then written in every permutation and used before or after.
+// Oracle: M6 evaluates the dependency chain itself; the immediates emitted for `mS(Ci)` / `mf(Ci)` must equal it,
+// whatever the order.
+
+#[derive(Debug, Clone)]
+enum CE { LitI(i32), LitF(f32), Ref(usize, Option<char>), Cast(bool, Box<CE>), Bin(&'static str, Box<CE>, Box<CE>) }
+
+fn ce_atom(ch: &mut Chooser, float: bool, types: &[bool]) -> CE {
+    let mut alts: Vec<CE> = vec![];
+    if float { alts.push(CE::LitF(2.5)); alts.push(CE::LitF(-0.75)); } else { alts.push(CE::LitI(7)); alts.push(CE::LitI(16777217)); alts.push(CE::LitI(-3)); }
+    for (j, &tj) in types.iter().enumerate() {
+        if tj == float { alts.push(CE::Ref(j, None)); }
+        alts.push(CE::Ref(j, Some(if float { '%' } else { '$' })));
+        if tj != float { alts.push(CE::Cast(float, Box::new(CE::Ref(j, None)))); }
+    }
+    alts[ch.pick(alts.len())].clone()
+}
+fn ce_body(ch: &mut Chooser, float: bool, types: &[bool]) -> CE {
+    match ch.pick(4) {
+        0 => ce_atom(ch, float, types),
+        k => { let op = ["+", "*", "/"][k - 1]; let a = ce_atom(ch, float, types); let b = ce_atom(ch, float, types); CE::Bin(op, Box::new(a), Box::new(b)) },
+    }
+}
+fn ce_text(e: &CE) -> String {
+    match e {
+        CE::LitI(x) => lit_int(*x), CE::LitF(x) => lit_float(*x),
+        CE::Ref(j, None) => format!("K{j}"), CE::Ref(j, Some(c)) => format!("{c}K{j}"),
+        CE::Cast(f, a) => format!("{}({})", if *f { "float" } else { "int" }, ce_text(a)),
+        CE::Bin(op, a, b) => format!("({} {op} {})", ce_text(a), ce_text(b)),
+    }
+}
+fn ce_eval(e: &CE, float: bool, vals: &[Option<Val>]) -> Option<Val> {
+    let cast = |v: &Val, f: bool| if f { Val::F(match v { Val::I(i) => *i as f32, Val::F(x) => *x }) } else { Val::I(v.as_int()) };
+    match e {
+        CE::LitI(x) => Some(Val::I(*x)), CE::LitF(x) => Some(Val::F(*x)),
+        CE::Ref(j, None) => vals[*j].clone(),
+        CE::Ref(j, Some(c)) => vals[*j].as_ref().map(|v| cast(v, *c == '%')),
+        CE::Cast(f, a) => { let inner = ce_eval(a, !*f, vals)?; Some(cast(&inner, *f)) },
+        CE::Bin(op, a, b) => { let x = ce_eval(a, float, vals)?; let y = ce_eval(b, float, vals)?; m1_binop(op, float, &x, &y) },
+    }
+}
+
+#[derive(Debug, Clone)]
+struct Chain { types: Vec<bool>, bodies: Vec<CE>, order: Vec<usize>, uses_first: bool }
+
+fn gen_chain(ch: &mut Chooser) -> Chain {
+    let n = 2 + ch.pick(2);
+    let mut types = vec![]; let mut bodies = vec![];
+    for _ in 0..n { let f = ch.pick(2) == 1; let b = ce_body(ch, f, &types); types.push(f); bodies.push(b); }
+    // every permutation of the definition order, for free
+    let perms: Vec<Vec<usize>> = if n == 2 { vec![vec![0, 1], vec![1, 0]] } else { vec![vec![0, 1, 2], vec![0, 2, 1], vec![1, 0, 2], vec![1, 2, 0], vec![2, 0, 1], vec![2, 1, 0]] };
+    let order = perms[ch.pick_free(perms.len())].clone();
+    let uses_first = ch.pick_free(2) == 1;
+    Chain { types, bodies, order, uses_first }
+}
+fn chain_text(c: &Chain) -> String {
+    let defs: Vec<String> = c.order.iter().map(|&i| format!("const {} K{i} = {};", if c.types[i] { "float" } else { "int" }, ce_text(&c.bodies[i]))).collect();
+    let uses: Vec<String> = (0..c.types.len()).map(|i| format!("{}(K{i});", if c.types[i] { "mf" } else { "mS" })).collect();
+    if c.uses_first { format!("{{ {} {} }}", uses.join(" "), defs.join(" ")) } else { format!("{{ {} {} }}", defs.join(" "), uses.join(" ")) }
+}
+fn chain_expected(c: &Chain) -> Option<Vec<Val>> {
+    let mut vals: Vec<Option<Val>> = vec![];
+    for i in 0..c.types.len() { let v = ce_eval(&c.bodies[i], c.types[i], &vals); vals.push(v); }
+    vals.into_iter().collect()
+}
+
 fn judge(c: &ConstCase, got: &Val) -> bool {
     match &c.expect {
         None => false,
@@ -222,8 +292,54 @@ pub fn run(tier: &str) -> Report {
     }
     rep.sample(json!({"family": "c", "body": "{ const int Z = Y - X; const int X = 2; const int Y = X * 3 + 1; mS(Z); mS(Y); mS(X); }"}));
 
+    // (c2) generated chains of const definitions, every definition order, uses before/after
+    let mut chains: Vec<Chain> = vec![];
+    let mut seen_c = BTreeSet::new();
+    let cbound = if thorough { 6 } else { 4 };
+    let cstats = explore_dfs(cbound, if thorough { 3_000_000 } else { 400_000 }, &|ch| gen_chain(ch), &mut |_, c| { if seen_c.insert(chain_text(&c)) { chains.push(c); } });
+    rep.transitions += cstats.runs;
+    if cstats.capped { rep.cap_hit = Some("generator cap in (c2)".into()); }
+    let cres = par_map(&chains, Some(deadline), |_, c| {
+        let body = chain_text(c);
+        let expected = chain_expected(c);
+        let got = catch(|| with_truth(&mapfile, |truth| {
+            let mut block = front_end(truth, &body, true).map_err(|(s, d)| format!("{s}: {d}"))?;
+            tl::const_simplify(truth, &mut block)?;
+            let des = desugar(truth, &block)?;
+            let (instrs, _) = tl::lower(truth, &hooks, &des.0, false)?;
+            let mut out = vec![];
+            for (i, ins) in instrs.iter().enumerate() {
+                let sig = if *c.types.get(i).unwrap_or(&false) { "f" } else { "S" };
+                let args = decode_args(sig, ins)?;
+                match &args[0].1 { Arg::Imm(v) => out.push(v.clone()), other => return Err(format!("not folded: {:?}", other)) }
+            }
+            Ok::<_, String>(out)
+        }));
+        (body, expected, got)
+    });
+    let mut n_chain_nontrivial = 0u64;
+    for (i, r) in cres.into_iter().enumerate() {
+        let Some((body, expected, got)) = r else { rep.cap_hit = Some("wall cap in (c2)".into()); continue; };
+        rep.evaluations += 1; rep.states += 1; rep.traces_validated += 1;
+        let forward = chains[i].uses_first || chains[i].order.windows(2).any(|w| w[0] > w[1]);
+        if forward { rep.nontrivial += 1; n_chain_nontrivial += 1; }
+        let exp_text = format!("{:?}", expected);
+        let det = |extra: serde_json::Value| json!({"family": "c2", "body": body, "expected": exp_text, "info": extra});
+        match (expected, got) {
+            (_, Err(p)) => { rep.outcome("c2:panic"); rep.fail(format!("C11:const-chain-panic:{body}"), det(json!({"panic": p.text}))); },
+            (None, Ok(Err(d))) => { if crate::drive::has_error(&d) { rep.outcome("c2:undefined-diagnosed"); } else { rep.outcome("c2:undefined-no-error"); rep.fail(format!("C11:const-chain-undefined-without-error:{body}"), det(json!({"diag": d}))); } },
+            (None, Ok(Ok(v))) => { rep.outcome("c2:undefined-folded"); rep.fail(format!("C11:const-chain-undefined-folded:{body}"), det(json!({"got": format!("{:?}", v)}))); },
+            (Some(_), Ok(Err(d))) => { rep.outcome("c2:rejected"); rep.fail(format!("C11:const-chain-rejected:{body}"), det(json!({"diag": d}))); },
+            (Some(e), Ok(Ok(v))) => {
+                if e.len() == v.len() && e.iter().zip(&v).all(|(a, b)| a.same(b)) { rep.outcome("c2:agree"); }
+                else { rep.outcome("c2:disagree"); rep.fail(format!("C11:const-chain-value:{body}"), det(json!({"got": format!("{:?}", v)}))); }
+            },
+        }
+        if i % 5003 == 0 { rep.sample(json!({"family": "c2", "body": body})); }
+    }
+    let n_chains = chains.len();
     rep.exhaustive = true;
-    rep.bound_completed = format!("(a),(d): exhaustive over 19 int binops x {}^2, 11 float binops x {}^2, unary ops, casts, constant ternaries ({} cases); (b): partially-constant expressions, deviations<={bound}, depth<={depth} ({} bodies) x {} valuations; (c): {} expressions x 3 spellings + 6 definition orders", B_INT.len(), b_float().len(), cases.len(), bodies.len(), vals.len(), exprs.len());
+    rep.bound_completed = format!("(c2): {n_chains} const chains (2-3 consts of either type; bodies = atom or atom op atom; atoms = literal, plain / sigil-cast / int()/float() reference to an earlier const; deviations<={cbound}) x every definition order x uses before/after ({n_chain_nontrivial} with a forward reference); (a),(d): exhaustive over 19 int binops x {}^2, 11 float binops x {}^2, unary ops, casts, constant ternaries ({} cases); (b): partially-constant expressions, deviations<={bound}, depth<={depth} ({} bodies) x {} valuations; (c): {} expressions x 3 spellings + 6 definition orders", B_INT.len(), b_float().len(), cases.len(), bodies.len(), vals.len(), exprs.len());
     rep.rule = "(a) full product of operators x boundary operand sets through the real front end + const_simplify + Lowerer, emitted immediate read back; non-trivial = operand pair hits an edge (overflow, zero divisor, shift >=32 or <0, non-finite float, -0.0) or the expression was actually simplified (b)".into();
     rep.assumptions = vec!["M6 reference evaluator (i64 arithmetic + truncation, shifts mod 32, IEEE f32 via Rust)".into(), "&& and || are compared for truthiness only (DESIGN §7)".into(), "AstVm for (b)".into()];
     rep.explanation = "compile-time values compared with M6; undefined constants must be diagnosed; const-simplified expressions executed against the originals; named vs inline constants must emit identical instructions".into();
